@@ -113,6 +113,12 @@ def main(run_fn, prop: str) -> None:
 	args = parser.parse_args(sys.argv[2:] if len(sys.argv) > 1 and sys.argv[1].upper() == prop else None)
 	seed = int(os.environ.get('VERIF_SEED', '0') or 0)
 	ctx = Ctx(prop, args.tier, seed, args.replay)
+	# every scratch directory of this run - also those of pool workers, whose exit handlers never run - lives under one
+	# parent that the main process removes when the check ends
+	import shutil
+	import tempfile
+	run_base = tempfile.mkdtemp(prefix=f'verif-run-{prop}-', dir=os.environ.get('VERIF_SCRATCH_ROOT', '/var/tmp'))
+	os.environ['VERIF_SCRATCH_BASE'] = run_base
 	try:
 		code = run_fn(ctx)
 	except Machinery as e:
@@ -123,4 +129,9 @@ def main(run_fn, prop: str) -> None:
 		print(f'MACHINERY-FAILURE property={prop}: unexpected exception in the harness')
 		code = 2
 	sys.stdout.flush()
+	try:
+		os.chdir('/')
+	except OSError:
+		pass
+	shutil.rmtree(run_base, ignore_errors=True)
 	sys.exit(code)
